@@ -587,8 +587,87 @@ inline Pos theme_swarm(Tape& t, Report* rep)
     return gen_fen(t, rep);
 }
 
+// (vii) the pawn that has just advanced two squares gives check and capturing it en passant is the only
+// (or almost the only) legal reply: the king is boxed in by its own men, the checking pawn is protected
+inline Pos theme_ep_evasion(Tape& t, Report* rep)
+{
+    Pos best;
+    bool haveBest = false;
+    for (int attempt = 0; attempt < 12; ++attempt)
+    {
+        Pos p;
+        bool w = !t.flag();  // side to move = the side in check (captures en passant)
+        p.wtm = w;
+        // pusher's pawn stands on its 4th rank (rank index 3 if the pusher is White, i.e. Black to move)
+        int r4 = w ? 4 : 3, r3 = w ? 5 : 2, r2 = w ? 6 : 1;  // pawn, ep square, origin (board ranks)
+        int kr = w ? 3 : 4;                                  // the checked king stands one rank "in front" of the pawn from the pusher's view
+        int f = 1 + int(t.choose(6));
+        int kf = f + (t.flag() ? 1 : -1);
+        char P = w ? 'p' : 'P', mineP = w ? 'P' : 'p';
+        p.b[SQ(f, r4)] = P;
+        p.b[SQ(kf, kr)] = w ? 'K' : 'k';
+        // capturer(s) beside the pushed pawn
+        int cmode = int(t.choose(3));
+        if (cmode != 1 && f > 0 && p.b[SQ(f - 1, r4)] == '.') p.b[SQ(f - 1, r4)] = mineP;
+        if (cmode != 0 && f < 7 && p.b[SQ(f + 1, r4)] == '.') p.b[SQ(f + 1, r4)] = mineP;
+        if (p.b[SQ(f - 1 >= 0 ? f - 1 : f + 1, r4)] != mineP && (f + 1 > 7 || p.b[SQ(f + 1, r4)] != mineP)) continue;
+        p.ep = SQ(f, r3);
+        // protect the checking pawn with a pawn of its own side
+        int pf = f + (t.flag() ? 1 : -1);
+        if (pf >= 0 && pf <= 7 && p.b[SQ(pf, r3)] == '.' && SQ(pf, r3) != p.ep) p.b[SQ(pf, r3)] = P;
+        // box the king in with its own men
+        for (int d = 0; d < 8; ++d)
+        {
+            int nf = kf + ref::DIR_DF[d], nr = kr + ref::DIR_DR[d];
+            if (!ref::on_board(nf, nr)) continue;
+            int s = SQ(nf, nr);
+            if (p.b[s] != '.' || s == p.ep || s == SQ(f, r2)) continue;
+            if (t.chance(1, 5)) continue;
+            char c = (nr >= 1 && nr <= 6 && t.chance(2, 3)) ? 'p' : (t.flag() ? 'n' : 'b');
+            char pc = w ? char(std::toupper(c)) : c;
+            if (ref::count(p, pc) >= (c == 'p' ? 8 : 2)) continue;
+            p.b[s] = pc;
+        }
+        // the other king far away
+        int cand[64], n = 0;
+        for (int s = 0; s < 64; ++s)
+            if (p.b[s] == '.' && s != p.ep && s != SQ(f, r2) && std::max(std::abs(FL(s) - kf), std::abs(RK(s) - kr)) > 2) cand[n++] = s;
+        if (!n) continue;
+        p.b[cand[t.choose(n)]] = w ? 'k' : 'K';
+        p.half = 0;
+        p.full = 1 + int(t.choose(60));
+        if (!ref::domain_violation(p).empty()) continue;
+        std::vector<ref::Move> ms = ref::legal_moves(p);
+        bool anyEp = false, onlyEp = !ms.empty();
+        for (auto& m : ms)
+        {
+            if (ref::is_ep(p, m)) anyEp = true;
+            else onlyEp = false;
+        }
+        if (!anyEp) continue;
+        if (onlyEp)
+        {
+            if (rep) rep->cls("gen:theme_ep_evasion_only_reply");
+            return p;
+        }
+        if (!haveBest || ms.size() < ref::legal_moves(best).size())
+        {
+            best = p;
+            haveBest = true;
+        }
+    }
+    if (haveBest)
+    {
+        if (rep) rep->cls("gen:theme_ep_evasion_some_replies");
+        return best;
+    }
+    if (rep) rep->cls("gen:theme_ep_evasion_fallback");
+    return theme_ep_pin(t, rep);
+}
+
 inline Pos gen_theme(Tape& t, Report* rep)
 {
+    if (t.chance(1, 10)) return theme_ep_evasion(t, rep);
     switch (t.choose(5))
     {
     case 0: return theme_ep_pin(t, rep);
